@@ -120,12 +120,12 @@ func halfPipe(src net.Conn, dst net.Conn,
 	}()
 
 	// Set deadlines in case either side disappears.
-	err := src.SetDeadline(time.Now().Add(proxyInitTimeout))
+	err := setConnDeadline(src, time.Now().Add(proxyInitTimeout))
 	if err != nil {
 		logger.Errorln("error setting deadline for src conn: ", tag)
 		return
 	}
-	err = dst.SetDeadline(time.Now().Add(proxyInitTimeout))
+	err = setConnDeadline(dst, time.Now().Add(proxyInitTimeout))
 	if err != nil {
 		logger.Errorln("error setting deadline for dst conn: ", tag)
 		return
@@ -203,17 +203,29 @@ func halfPipe(src net.Conn, dst net.Conn,
 
 		// refresh stall timeout - set both because it only happens on write so if connection is
 		// sending traffic unidirectionally we prevent the receiving side from timing out.
-		err := src.SetDeadline(time.Now().Add(proxyStallTimeout))
+		err := setConnDeadline(src, time.Now().Add(proxyStallTimeout))
 		if err != nil {
 			logger.Errorln("error setting deadline for src conn: ", tag)
 			return
 		}
-		err = dst.SetDeadline(time.Now().Add(proxyStallTimeout))
+		err = setConnDeadline(dst, time.Now().Add(proxyStallTimeout))
 		if err != nil {
 			logger.Errorln("error setting deadline for dst conn: ", tag)
 			return
 		}
 	}
+}
+
+// setConnDeadline sets the read and write deadlines of c. A connection wrapped by a transport need
+// not support SetDeadline: the obfs4 connection answers ENOTSUP to SetDeadline and SetWriteDeadline
+// and passes only SetReadDeadline on to the socket. Fall back to the read deadline in that case
+// instead of giving up on the tunnel.
+func setConnDeadline(c net.Conn, t time.Time) error {
+	err := c.SetDeadline(t)
+	if errors.Is(err, syscall.ENOTSUP) {
+		return c.SetReadDeadline(t)
+	}
+	return err
 }
 
 // Proxy take a registration and a net.Conn and forwards client traffic to the
